@@ -237,12 +237,20 @@ int vs_end(void) {
 // ---- explorer -------------------------------------------------------------------------------------
 typedef struct { int len; int *v; int *nen; } prefix_t;
 
+// A process may be asked to stop after vs_max_exec executions and to write the unexplored frontier to vs_dump_path;
+// a later process continues from it (vs_resume_path). ThreadSanitizer needs this: its thread-id space (8192) is used up
+// by a few thousand executions, after which recycled ids produce spurious race reports.
+long vs_max_exec; const char *vs_dump_path, *vs_resume_path; int vs_dumped;
 void vs_explore(void (*body)(void), const vs_bounds *b, int shard, int nshards, vs_stats *st, int (*expired)(void)) {
 	size_t cap = 1 << 14, top = 0; prefix_t *stk = malloc(cap * sizeof *stk);
-	stk[top++] = (prefix_t){ 0, NULL, NULL };
-	long level1 = 0; memset(st, 0, sizeof *st);
+	long level1 = 0; memset(st, 0, sizeof *st); int resumed = 0;
+	if (vs_resume_path) { FILE *f = fopen(vs_resume_path, "rb"); if (f) { int len; resumed = 1;
+		while (fread(&len, sizeof len, 1, f) == 1) { int *v = malloc((len + 1) * sizeof(int)), *ne = malloc((len + 1) * sizeof(int)); if (fread(v, sizeof(int), len, f) != (size_t)len || fread(ne, sizeof(int), len, f) != (size_t)len) break;
+			if (top == cap) { cap *= 2; stk = realloc(stk, cap * sizeof *stk); } stk[top++] = (prefix_t){ len, v, ne }; } fclose(f); } vs_resume_path = NULL; }
+	if (!resumed) stk[top++] = (prefix_t){ 0, NULL, NULL };
 	while (top) {
 		if (expired && expired()) { st->incomplete = 1; break; }
+		if (vs_max_exec && st->executions >= vs_max_exec && vs_dump_path) { FILE *f = fopen(vs_dump_path, "wb"); if (f) { for (size_t i = 0; i < top; i++) { fwrite(&stk[i].len, sizeof(int), 1, f); fwrite(stk[i].v, sizeof(int), stk[i].len, f); fwrite(stk[i].nen, sizeof(int), stk[i].len, f); } fclose(f); vs_dumped = 1; } break; }
 		prefix_t p = stk[--top];
 		if (p.len) { memcpy(vs_prefix, p.v, p.len * sizeof(int)); memcpy(vs_prefix_nen, p.nen, p.len * sizeof(int)); }
 		vs_prefix_len = p.len;
